@@ -1506,13 +1506,13 @@ fn section_text(ctx: &mut Ctx) {
         if fails.len() == 3 && classes.len() == 1 {
             let c = classes.iter().next().unwrap();
             ctx.violation(
-                &format!("{P}|text-roundtrip|{}|{c}", fam(t)),
+                &format!("{P}|text-roundtrip|{}|{c}", match t { DataType::Interval(u) => format!("Interval({u:?})"), _ => fam(t).to_string() }),
                 format!("{t} -> Utf8/LargeUtf8/Utf8View -> {t} with format {}: {}\ninput {}", fmt.name, fails[0].1, dump_vals(&vals)),
             );
         } else {
             for (c, d) in &fails {
                 ctx.violation(
-                    &format!("{P}|text-roundtrip|{}|{c}", fam(t)),
+                    &format!("{P}|text-roundtrip|{}|{c}", match t { DataType::Interval(u) => format!("Interval({u:?})"), _ => fam(t).to_string() }),
                     format!("{t} -> string -> {t} with format {}: {d}\ninput {}", fmt.name, dump_vals(&vals)),
                 );
             }
